@@ -223,6 +223,14 @@ def truncOne (t : Int) (g : SG) : SG :=
   if t ≥ g.stop || g.deleted || (match g.trunc with | some tr => tr < t | none => false) then g
   else if t ≤ g.start then { g with trunc := some g.start } else { g with trunc := some t }
 
+theorem truncOne_cases (t : Int) (g : SG) :
+    truncOne t g = g ∨ truncOne t g = { g with trunc := some g.start } ∨ truncOne t g = { g with trunc := some t } := by
+  by_cases hc : (decide (t ≥ g.stop) || g.deleted || (match g.trunc with | some tr => decide (tr < t) | none => false)) = true
+  · left; unfold truncOne; rw [if_pos hc]
+  · by_cases hle : t ≤ g.start
+    · right; left; unfold truncOne; rw [if_neg hc, if_pos hle]
+    · right; right; unfold truncOne; rw [if_neg hc, if_neg hle]
+
 theorem truncOne_shrinks (t : Int) (g : SG) : Shrinks g (truncOne t g) := by
   by_cases hc : (decide (t ≥ g.stop) || g.deleted || (match g.trunc with | some tr => decide (tr < t) | none => false)) = true
   · have : truncOne t g = g := by unfold truncOne; rw [if_pos hc]
